@@ -11,6 +11,9 @@
 
 #include "shape.hpp"
 
+// a limit that is a macro, as in C APIs: WITH(...) must report the clause as written, not as expanded (C15)
+#define SIM_LIMIT 3
+
 namespace sim {
 
 // argument type whose copies and moves are counted (C09)
@@ -35,8 +38,9 @@ struct MockT {
   MAKE_MOCK1(r, int&(int&));
   MAKE_CONST_MOCK1(c, int(int));
   MAKE_MOCK1(u, int(std::unique_ptr<Tracked>));
-  MAKE_MOCK1(s, std::string(const std::string&));
+  MAKE_MOCK1(s, std::string(std::string&));
   MAKE_CONST_MOCK1(k, const int&(const int&));
+  MAKE_MOCK0(z, void());
 };
 
 using EP = std::unique_ptr<trompeloeil::expectation>;
@@ -48,6 +52,7 @@ struct Inst {
   std::size_t lo = 1, hi = 1;
   int snap = 0;
   int* cell = nullptr;
+  std::string str;   // a local of class type named in LR_RETURN (short: no allocation)
   trompeloeil::sequence* s[3] = {nullptr, nullptr, nullptr};
 };
 
@@ -82,6 +87,7 @@ void se(int id, int k, int snap, const void* a1, const void* a2 = nullptr);
 int ret(int id, int snap, const void* a1, const void* a2 = nullptr);
 int& retref(int id, int snap, int& target, const void* a1);
 std::string rets(int id, int snap, const void* a1);
+std::string& retsr(int id, int snap, std::string& target, const void* a1);   // an lvalue of the return type: must be copied, not moved from
 const int& retcref(int id, int snap, const int& target, const void* a1);
 std::runtime_error thr_std(int id, int snap);
 int thr_int(int id, int snap);
